@@ -68,3 +68,133 @@ package whispertool
 //@ loop extractPoints#0
 //@   invariant bounds: -1 <= i && i < len(points)
 //@   invariant young: forall j :: i < j && j < len(points) ==> points[j].Time > maxAge
+
+// ---------------------------------------------------------------- binary codec (C14)
+
+//@ spec be32(s []byte, i int) int = s[i]*16777216 + s[i+1]*65536 + s[i+2]*256 + s[i+3]
+//@ spec be64(s []byte, i int) int = be32(s, i)*4294967296 + be32(s, i+4)
+
+//@ func (*Timestamp).AppendTo
+//@   props C14 C06
+//@   requires t != nil
+//@   modifies dst[len(dst):cap(dst)]
+//@   ensures length: len(result) == len(dst) + 4
+//@   ensures off: result.off == dst.off
+//@   ensures rest: forall j :: j < dst.off + len(dst) || j >= dst.off + len(dst) + 4 ==> at(result, j) == old(at(dst, j))
+//@   ensures enc: be32(result, len(dst)) == *t
+//@   ensures alias: fresh(result) || result === dst[0:len(dst)+4]
+
+//@ func (*Timestamp).TakeFrom
+//@   props C14 C15
+//@   requires t != nil
+//@   modifies *t
+//@   ensures short: len(src) < 4 ==> iswl(result1) && wlsize(result1) == 4 && *t == old(*t)
+//@   ensures ok: len(src) >= 4 ==> result1 == nil && *t == be32(src, 0) && result0 === src[4:]
+
+//@ func (*Duration).AppendTo
+//@   props C14 C06
+//@   requires d != nil
+//@   modifies dst[len(dst):cap(dst)]
+//@   ensures length: len(result) == len(dst) + 4
+//@   ensures off: result.off == dst.off
+//@   ensures rest: forall j :: j < dst.off + len(dst) || j >= dst.off + len(dst) + 4 ==> at(result, j) == old(at(dst, j))
+//@   ensures enc: be32(result, len(dst)) == *d fmod 4294967296
+//@   ensures alias: fresh(result) || result === dst[0:len(dst)+4]
+
+//@ func (*Duration).TakeFrom
+//@   props C14 C15
+//@   requires d != nil
+//@   modifies *d
+//@   ensures short: len(src) < 4 ==> iswl(result1) && wlsize(result1) == 4 && *d == old(*d)
+//@   ensures ok: len(src) >= 4 ==> result1 == nil && *d fmod 4294967296 == be32(src, 0) && result0 === src[4:]
+
+//@ func (*Value).AppendTo
+//@   props C14 C06
+//@   requires v != nil
+//@   modifies dst[len(dst):cap(dst)]
+//@   ensures length: len(result) == len(dst) + 8
+//@   ensures off: result.off == dst.off
+//@   ensures rest: forall j :: j < dst.off + len(dst) || j >= dst.off + len(dst) + 8 ==> at(result, j) == old(at(dst, j))
+//@   ensures enc: be64(result, len(dst)) == bits(*v)
+//@   ensures alias: fresh(result) || result === dst[0:len(dst)+8]
+
+//@ func (*Value).TakeFrom
+//@   props C14 C15
+//@   requires v != nil
+//@   modifies *v
+//@   ensures short: len(src) < 8 ==> iswl(result1) && wlsize(result1) == 8 && bits(*v) == old(bits(*v))
+//@   ensures ok: len(src) >= 8 ==> result1 == nil && bits(*v) == be64(src, 0) && result0 === src[8:]
+
+//@ func (*Point).AppendTo
+//@   props C14 C06
+//@   requires p != nil
+//@   modifies dst[len(dst):cap(dst)]
+//@   ensures length: len(result) == len(dst) + 12
+//@   ensures off: result.off == dst.off
+//@   ensures rest: forall j :: j < dst.off + len(dst) || j >= dst.off + len(dst) + 12 ==> at(result, j) == old(at(dst, j))
+//@   ensures enc_time: be32(result, len(dst)) == p.Time
+//@   ensures enc_value: be64(result, len(dst) + 4) == bits(p.Value)
+//@   ensures alias: fresh(result) || result === dst[0:len(dst)+12]
+
+//@ func (*Point).TakeFrom
+//@   props C14 C15
+//@   requires p != nil
+//@   modifies *p
+//@   ensures short: len(src) < 12 ==> iswl(result1) && wlsize(result1) == 12 && *p == old(*p)
+//@   ensures ok: len(src) >= 12 ==> result1 == nil && p.Time == be32(src, 0) && bits(p.Value) == be64(src, 4) && result0 === src[12:]
+
+//@ func (*ArchiveInfo).AppendTo
+//@   props C14 C06
+//@   requires a != nil
+//@   modifies dst[len(dst):cap(dst)]
+//@   ensures length: len(result) == len(dst) + 12
+//@   ensures off: result.off == dst.off
+//@   ensures rest: forall j :: j < dst.off + len(dst) || j >= dst.off + len(dst) + 12 ==> at(result, j) == old(at(dst, j))
+//@   ensures enc_offset: be32(result, len(dst)) == a.offset
+//@   ensures enc_step: be32(result, len(dst) + 4) == a.secondsPerPoint fmod 4294967296
+//@   ensures enc_points: be32(result, len(dst) + 8) == a.numberOfPoints
+//@   ensures alias: fresh(result) || result === dst[0:len(dst)+12]
+
+//@ func (*ArchiveInfo).TakeFrom
+//@   props C14 C15
+//@   requires a != nil
+//@   modifies *a
+//@   ensures short: len(src) < 12 ==> iswl(result1) && wlsize(result1) == 12 && *a == old(*a)
+//@   ensures ok: len(src) >= 12 ==> result1 == nil && a.offset == be32(src, 0) && a.secondsPerPoint fmod 4294967296 == be32(src, 4)
+//@                 && a.numberOfPoints == be32(src, 8) && result0 === src[12:]
+
+// ---------------------------------------------------------------- layout validation (C07)
+
+//@ spec validArchive(a ArchiveInfo) bool = a.secondsPerPoint > 0 && a.numberOfPoints > 0
+//@ spec retention(a ArchiveInfo) int = a.secondsPerPoint * a.numberOfPoints
+//@ spec pairOK(a ArchiveInfo, b ArchiveInfo) opaque bool = a.secondsPerPoint < b.secondsPerPoint && b.secondsPerPoint % a.secondsPerPoint == 0
+//@        && retention(a) < retention(b) && a.numberOfPoints >= b.secondsPerPoint / a.secondsPerPoint
+//@ spec fits32(a ArchiveInfo) bool = retention(a) <= 2147483647 && a.offset + 12 * a.numberOfPoints <= 4294967295
+//@ spec wellFormed(aa ArchiveInfoList) bool = len(aa) > 0 && aa[0].offset == 16 + 12 * len(aa)
+//@        && (forall i :: 0 <= i && i < len(aa) ==> validArchive(aa[i]) && fits32(aa[i]))
+//@        && (forall i :: 0 <= i && i + 1 < len(aa) ==> pairOK(aa[i], aa[i+1]) && aa[i+1].offset == aa[i].offset + 12 * aa[i].numberOfPoints)
+
+//@ func validateAggregationMethod
+//@   props C07
+//@   ensures iff: result == nil <==> (1 <= aggMethod && aggMethod <= 6)
+
+//@ func validateXFilesFactor
+//@   props C07
+//@   ensures iff: result == nil <==> (0.0 <= xFilesFactor && xFilesFactor <= 1.0)
+
+//@ func (ArchiveInfo).validate
+//@   props C07
+//@   ensures iff: result == nil <==> validArchive(a)
+
+//@ func (ArchiveInfoList).validate
+//@   props C07
+//@   ensures sound: result == nil ==> wellFormed(aa)
+//@   ensures complete: wellFormed(aa) ==> result == nil
+//@ loop (ArchiveInfoList).validate#0
+//@   invariant bounds: 0 <= i && i <= len(aa) && len(aa) > 0
+//@   invariant off: i == 0 ==> off == 16 + 12 * len(aa)
+//@   invariant offnext: i > 0 ==> off == aa[i-1].offset + 12 * aa[i-1].numberOfPoints
+//@   invariant first: i > 0 ==> aa[0].offset == 16 + 12 * len(aa)
+//@   invariant each: forall j :: 0 <= j && j < i ==> validArchive(aa[j]) && fits32(aa[j])
+//@   invariant pairs: forall j :: 0 <= j && j + 1 < len(aa) && j < i ==> pairOK(aa[j], aa[j+1])
+//@   invariant chain: forall j :: 0 <= j && j + 1 < i ==> aa[j+1].offset == aa[j].offset + 12 * aa[j].numberOfPoints
